@@ -112,6 +112,7 @@ class FloorTracer:
         self.m = B.Model(cfg, self)
         self.env = self.m.env
         self.nrec = {}
+        self.arrival = {}
         self.nvh = {}
         self.started = False
         self.steps_at_now = 0
@@ -140,6 +141,8 @@ class FloorTracer:
     # -- observations through public callbacks ----------------------------------------------------
     def occ(self, kind, dev, part, h):
         ent = [kind, dev, self.pid(part), num(part.quality), num(part.value)]
+        if kind == 'recv':
+            self.arrival[(dev, self.pid(part))] = tk(self.env.now)      # when a buffer received the item (observed)
         if kind == 'recv':
             # the cycle time and offset in force for this part (this callback is registered last)
             ent += [tk(h.cycle_time, 'cycle'), tk(h._next_cycle_time_offset, 'offset')]
@@ -170,8 +173,9 @@ class FloorTracer:
                        up=tk(o.uptime, 'uptime') if o.env is not None else 0,
                        ut=tk(o.utilization_time, 'util') if o.env is not None else 0)
         elif k == 'buffer':
-            out.update(buf=[[tk(t), self.pid(p)] for t, p in o._buffer], level=num(o.level()),
-                       stored=[self.pid(p) for p in o.stored_parts])
+            # content and order from the public stored_parts, arrival times as observed by the receive callback
+            out.update(buf=[[self.arrival.get((d['id'], self.pid(p)), -1), self.pid(p)] for p in o.stored_parts],
+                       level=num(o.level()))
         elif k == 'batcher':
             ip = o._in_progress_batch
             out.update(inprog=[self.pid(p) for p in ip.parts] if ip is not None else [], ipb=self.pid(ip))
@@ -494,6 +498,10 @@ def run_cfg(tid, cfg, seed=0, max_steps=20000, light=True, force=None, fixed=Non
         err = '%s: %s' % (type(ex).__name__, ex)
         if not str(ex).startswith('NONTERMINATION'):
             err += ' @ ' + traceback.format_exc().strip().splitlines()[-3].strip()
+            # an exception raised by the harness itself (projection, callbacks of the tracer) is not a finding
+            tb = traceback.extract_tb(ex.__traceback__)
+            if tb and '/harness/' in tb[-1].filename:
+                err = 'HARNESS ' + err
     finally:
         _state['cur'] = None
     return (tr.lines if tr else []), err
